@@ -74,6 +74,12 @@ func (e *Env) caseOpts(t *schema.Type, n, perKey int, arbitrary bool, long bool)
 			}
 		}
 	}
+	// object lists behind a 32-bit count legitimately hold more than 65 535 elements
+	for _, f := range t.Fields {
+		if f.Kind == "objlist" && f.Prefix == "u32" {
+			cs = append(cs, &gen.Opts{Arbitrary: arbitrary, NoNilBody: true, Lens: []int{65537}}, &gen.Opts{Arbitrary: arbitrary, NoNilBody: true, Lens: []int{70001}})
+		}
+	}
 	if long && hasList(e, t, map[string]bool{}) {
 		for _, l := range []int{255, 256, 1000, 65535} {
 			// long lists carry short texts, long texts sit in short lists (a 65535×65535-byte list is 4 GiB)
